@@ -1192,6 +1192,17 @@ static void uv__poll_io_uring(uv_loop_t* loop, struct uv__iou* iou) {
 
     /* If the op is not supported by the kernel retry using the thread pool */
     if (e->res == -EOPNOTSUPP) {
+      switch (req->fs_type) {
+        case UV_FS_FSTAT:
+        case UV_FS_LSTAT:
+        case UV_FS_STAT:
+          /* The statx buffer is only used by the io_uring route. */
+          uv__free(req->ptr);
+          req->ptr = NULL;
+          break;
+        default:  /* Squelch -Wswitch warnings. */
+          break;
+      }
       uv__fs_post(loop, req);
       continue;
     }
